@@ -413,6 +413,89 @@ async def c08_event_fire(w):
     return {"reproduced": got != expect, "observed": {"event_data": got}, "expected": {"event_data": expect}}
 
 
+def fake_states(hass):
+    from types import SimpleNamespace as NS
+    table = {}
+
+    def get(name):
+        if name not in table:
+            return None
+        v, a = table[name]
+        return NS(state=v, attributes=a, entity_id=name, last_updated="lu", last_changed="lc", last_reported="lr")
+
+    def async_set(name, value, attrs=None, context=None, **kw):
+        table[name] = (str(value) if value is not None else None, dict(attrs or {}))
+
+    def async_remove(name, context=None):
+        return table.pop(name, None) is not None
+
+    hass.states = NS(get=get, async_set=async_set, async_remove=async_remove, table=table)
+    return table
+
+
+async def c16_state_set(w):
+    """State.set on every argument-combination shape against a dictionary model of the state machine."""
+    from homeassistant.core import Context
+    from custom_components.pyscript.state import State, StateVal
+    hass = await boot()
+    table = fake_states(hass)
+    State.notify.clear()
+    State.notify_var_last.clear()
+    out = []
+    for existed in ([w["existed"]] if "existed" in w else [True, False]):
+        for old_attrs in ({"a": 1, "b": 2}, {}):
+            for given in ({"g": 7}, {}):
+                table.clear()
+                if existed:
+                    table["d.e"] = ("old", dict(old_attrs))
+                args, kwargs = ["d.e"], {}
+                snap_attrs = {"s": 5}
+                if w["value"] == "plain":
+                    args.append("new")
+                elif w["value"] == "snapshot":
+                    from types import SimpleNamespace as NS
+                    args.append(StateVal(NS(state="snapval", attributes=dict(snap_attrs), entity_id="x.y", last_updated=1, last_changed=2, last_reported=3)))
+                if w["new_attributes"] == "given":
+                    kwargs["new_attributes"] = dict(given)
+                if w["kwargs"] == "attr":
+                    kwargs["k"] = "kv"
+                elif w["kwargs"] == "context-obj":
+                    kwargs["context"] = Context()
+                elif w["kwargs"] == "context-other":
+                    kwargs["context"] = "ctxval"
+                State.set(*args, **kwargs)
+                # expected by the documented rules
+                if w["new_attributes"] == "given":
+                    base = dict(given)
+                elif w["value"] == "snapshot":
+                    base = dict(snap_attrs)
+                else:
+                    base = dict(old_attrs) if existed else {}
+                if w["kwargs"] == "attr":
+                    base["k"] = "kv"
+                elif w["kwargs"] == "context-other":
+                    base["context"] = "ctxval"
+                exp_val = {"plain": "new", "snapshot": "snapval"}.get(w["value"], "old" if existed else None)
+                got = table.get("d.e")
+                if got != (exp_val, base):
+                    out.append({"existed": existed, "old_attrs": old_attrs, "given": given, "got": got, "expected": (exp_val, base)})
+    await shutdown()
+    return {"reproduced": bool(out), "observed": out[:3], "expected": "state machine equals the documented effect of state.set"}
+
+
+async def c16_getattr_snapshot(w):
+    from types import SimpleNamespace as NS
+    from custom_components.pyscript.state import State, StateVal
+    await boot()
+    snap = StateVal(NS(state="on", attributes={"a": 1}, entity_id="d.e", last_updated=1, last_changed=2, last_reported=3))
+    before = dict(snap.__dict__)
+    attrs = State.getattr(snap)
+    after = dict(snap.__dict__)
+    await shutdown()
+    return {"reproduced": before != after, "observed": {"snapshot_dict_before": before, "after": after, "returned": attrs},
+            "expected": "a captured snapshot never changes"}
+
+
 SCENARIOS = {k: v for k, v in list(globals().items()) if asyncio.iscoroutinefunction(v) and k[0] == "c"}
 
 if __name__ == "__main__":
